@@ -225,8 +225,13 @@ impl VariableRefMut<'_> {
 
         let old_value = self.0.value.replace(value);
         let old_location = std::mem::replace(&mut self.0.last_assigned_location, location);
+        match self.0.quirk {
+            // The variable no longer yields the line number once a value has
+            // been assigned to it.
+            Some(Quirk::LineNumber) => self.0.quirk = None,
+            None => {}
+        }
         Ok((old_value, old_location))
-        // TODO Apply quirk
     }
 
     /// Sets whether this variable is exported or not.
